@@ -83,8 +83,14 @@ pub struct Plan {
     pub datagrams: Vec<usize>,
     /// Send before the handshake completes (0-RTT)
     pub early: bool,
+    /// XOR-ed into every stream byte (and into the datagram tag's high byte) written before the
+    /// handshake completes, so that leaked early data is distinguishable (rejection cases)
+    pub early_salt: u8,
     /// Do not read at all (receiver stalls)
     pub no_read: bool,
+    /// Reset the stream of plan index .0 with code .2 at the first drive call that finds at least
+    /// .1 bytes in flight (or at the third drive call after Connected)
+    pub late_reset: Option<(usize, u64, u32)>,
     /// Audit API-level flow-control answers against the probe after every write/open (C05)
     pub audit: bool,
 }
@@ -126,6 +132,18 @@ pub struct Obs {
     pub dgrams_tx: Vec<(u16, usize, String)>,
     pub violations: Vec<String>,
     pub events_after_lost: u32,
+    /// 0-RTT: the workload was started before the handshake completed
+    pub started_early: bool,
+    /// Connection::accepted_0rtt() when Connected was seen
+    pub accepted_0rtt: Option<bool>,
+    /// What was sent early and then rolled back because the server rejected 0-RTT
+    pub early_tx: BTreeMap<u64, TxObs>,
+    pub early_dgrams_tx: Vec<(u16, usize, String)>,
+    /// Stream ids handed out by open(), in order, after the last (re)start
+    pub opened_order: Vec<u64>,
+    /// Client, when Connected is seen (after a 0-RTT rejection was processed): peer's connection
+    /// limit, peer's stream limits, streams opened, data_sent, unacked_data, queued datagrams
+    pub at_connected: Option<(u64, [u64; 2], [u64; 2], u64, u64, usize)>,
 }
 
 pub struct StdApp {
@@ -141,6 +159,8 @@ pub struct StdApp {
     dgram_next: usize,
     dgram_blocked: bool,
     echo: BTreeMap<u64, (usize, usize)>, // sid -> (sent, total)
+    salt: u8,
+    drives: u32,
 }
 
 impl StdApp {
@@ -158,6 +178,8 @@ impl StdApp {
             dgram_next: 0,
             dgram_blocked: false,
             echo: BTreeMap::new(),
+            salt: 0,
+            drives: 0,
         }
     }
 
@@ -178,6 +200,40 @@ impl StdApp {
                     End::Open => t.done_writing,
                 },
             })
+    }
+
+    /// The server rejected 0-RTT: every early stream must now report that it is gone; then the
+    /// workload restarts from scratch, as the API documentation asks applications to do.
+    fn rejected(&mut self, cx: &mut AppCx<'_>) {
+        let early: Vec<u64> = self.obs.tx.keys().copied().collect();
+        for s in early {
+            let id = StreamId::from(VarInt::from_u64(s).unwrap());
+            match cx.conn.send_stream(id).write(&[0]) {
+                Err(WriteError::ClosedStream) => {}
+                other => self.violation(format!("0-RTT rejected, but write() on early stream {s} returned {other:?} instead of ClosedStream")),
+            }
+            match cx.conn.send_stream(id).finish() {
+                Err(proto::FinishError::ClosedStream) => {}
+                other => self.violation(format!("0-RTT rejected, but finish() on early stream {s} returned {other:?} instead of ClosedStream")),
+            }
+            if id.dir() == Dir::Bi {
+                let mut rs = cx.conn.recv_stream(id);
+                if !matches!(rs.read(true), Err(ReadableError::ClosedStream)) {
+                    self.violation(format!("0-RTT rejected, but read() on early stream {s} did not return ClosedStream"));
+                }
+            }
+        }
+        self.obs.early_tx = std::mem::take(&mut self.obs.tx);
+        self.obs.early_dgrams_tx = std::mem::take(&mut self.obs.dgrams_tx);
+        self.obs.opened_order.clear();
+        self.obs.rx.clear();
+        self.next_plan = 0;
+        self.active.clear();
+        self.readable.clear();
+        self.open_blocked = [false; 2];
+        self.dgram_next = 0;
+        self.dgram_blocked = false;
+        self.drives = 0;
     }
 
     fn try_open(&mut self, cx: &mut AppCx<'_>) -> bool {
@@ -209,6 +265,7 @@ impl StdApp {
                     let idx = self.next_plan;
                     self.next_plan += 1;
                     self.active.push(id);
+                    self.obs.opened_order.push(sid(id));
                     self.obs.tx.insert(
                         sid(id),
                         TxObs { plan_idx: Some(idx), target: sp.len as u64, ..Default::default() },
@@ -240,6 +297,7 @@ impl StdApp {
         loop {
             if let End::Reset { after, code } = end {
                 if t.written >= after as u64 && t.reset_called.is_none() {
+                    let code = code ^ self.salt as u32;
                     match cx.conn.send_stream(id).reset(VarInt::from_u32(code)) {
                         Ok(()) => t.reset_called = Some(code),
                         Err(_) => t.closed_err = true,
@@ -267,7 +325,8 @@ impl StdApp {
             if let End::Reset { after, .. } = end {
                 n = n.min((after as u64).saturating_sub(t.written).max(1) as usize);
             }
-            let data: Vec<u8> = (0..n as u64).map(|i| pattern(s, t.written + i)).collect();
+            let salt = self.salt;
+            let data: Vec<u8> = (0..n as u64).map(|i| pattern(s, t.written + i) ^ salt).collect();
             match cx.conn.send_stream(id).write(&data) {
                 Ok(k) => {
                     did = true;
@@ -440,7 +499,7 @@ impl StdApp {
         let mut did = false;
         while self.dgram_next < self.plan.datagrams.len() && !self.dgram_blocked {
             let len = self.plan.datagrams[self.dgram_next];
-            let tag = self.dgram_next as u16;
+            let tag = self.dgram_next as u16 | ((self.salt as u16) << 8);
             let r = cx.conn.datagrams().send(Bytes::from(dgram_payload(tag, len)), false);
             did = true;
             match r {
@@ -470,7 +529,22 @@ impl App for StdApp {
                 self.obs.events_after_lost += 1;
             }
             match ev {
-                Event::Connected => self.obs.connected = true,
+                Event::Connected => {
+                    self.obs.connected = true;
+                    self.salt = 0;
+                    if self.side == Side::Client && self.started {
+                        self.obs.started_early = true;
+                        let acc = cx.conn.accepted_0rtt();
+                        self.obs.accepted_0rtt = Some(acc);
+                        if !acc {
+                            self.rejected(cx);
+                        }
+                    }
+                    if self.side == Side::Client {
+                        let pr = cx.conn.verif_probe();
+                        self.obs.at_connected = Some((pr.streams.max_data, pr.streams.max, pr.streams.next, pr.streams.data_sent, pr.streams.unacked_data, pr.datagram_outgoing));
+                    }
+                }
                 Event::HandshakeConfirmed => self.obs.handshake_confirmed = true,
                 Event::HandshakeDataReady => {}
                 Event::ConnectionLost { reason } => self.obs.lost.push(format!("{reason:?}")),
@@ -552,7 +626,29 @@ impl App for StdApp {
         // writes
         let can_start = self.obs.connected || (self.plan.early && cx.conn.has_0rtt() && cx.conn.is_handshaking());
         if can_start {
+            if !self.obs.connected {
+                self.salt = self.plan.early_salt;
+            }
             self.started = true;
+            self.drives += 1;
+            if let Some((idx, at, code)) = self.plan.late_reset {
+                let fire = cx.conn.verif_probe().in_flight_bytes >= at || (self.obs.connected && self.drives >= 3);
+                let target = self.obs.tx.iter().find(|(_, t)| t.plan_idx == Some(idx) && !t.done_writing || t.plan_idx == Some(idx) && t.reset_called.is_none() && !t.closed_err).map(|(s, _)| *s);
+                if fire {
+                    if let Some(s) = target {
+                        let id = StreamId::from(VarInt::from_u64(s).unwrap());
+                        let code = code ^ self.salt as u32;
+                        let r = cx.conn.send_stream(id).reset(VarInt::from_u32(code));
+                        let t = self.obs.tx.get_mut(&s).unwrap();
+                        match r {
+                            Ok(()) => t.reset_called = Some(code),
+                            Err(_) => t.closed_err = true,
+                        }
+                        t.done_writing = true;
+                        did = true;
+                    }
+                }
+            }
             did |= self.try_open(cx);
             did |= self.pump_dgrams(cx);
         }
